@@ -40,7 +40,7 @@ func shortShapes() []History {
 		}
 		return s
 	}
-	tailX := []Action{{Op: "cancel"}, {Op: "close"}, {Op: "exchange", In: 0}, {Op: "cancel"}}
+	tailX := []Action{{Op: "cancel"}, {Op: "cancel"}, {Op: "exchange", In: 0}, {Op: "close"}, {Op: "exchange", In: 0}, {Op: "cancel"}}
 	tailP := []Action{{Op: "cancel"}, {Op: "next"}, {Op: "close"}, {Op: "next"}, {Op: "cancel"}}
 	nexts := func(n int) []Action {
 		var a []Action
@@ -211,6 +211,9 @@ func randomHistory(rng *rand.Rand, cat []Fault, listener bool) History {
 	}
 	if rng.IntN(3) > 0 {
 		h.Actions = append(h.Actions, Action{Op: "cancel"})
+		if rng.IntN(2) == 0 {
+			h.Actions = append(h.Actions, Action{Op: "cancel"})
+		}
 	}
 	h.Actions = append(h.Actions, Action{Op: "close"})
 	if producer {
